@@ -1,13 +1,273 @@
-"""Bounded stand-ins for the raw-pointer dense kernels (concrete n, full unwinding, --unwinding-assertions)."""
+"""Matrix kernels of the QR / eigen / LDLT helper classes.
+ * TridiagQR works on 1-D arrays: proved UNBOUNDED (loop contracts, Skolem indices).
+ * UpperHessenbergQR, tridiagonal_qr_step and the BKLDLT pivoting kernels walk raw pointers over flattened 2-D storage:
+   BOUNDED stand-ins at concrete n with full unwinding and --unwinding-assertions (symbolic-n flattened indexing does not
+   terminate in CBMC, DESIGN 2.1); labelled bounded, never counted as proved."""
+import re
+
+from vlib import extract as X
+from vlib import cgen
+from vlib import eigabs
+from vlib.runner import Group
+from vlib.spec import FSpec
+
+QH = "LinAlg/UpperHessenbergQR.h"
+TQ_MEM = ["m_n", "m_shift", "m_rot_cos", "m_rot_sin", "m_computed", "m_T_diag", "m_T_subd", "m_R_diag", "m_R_supd", "m_R_supd2", "m_mat_R"]
+
+TQ_TYPES = '#include "skel.h"\n' + eigabs.SKEL_MACROS + r'''
+typedef struct { Index m_n; Scalar m_shift; Scalar *m_rot_cos, *m_rot_sin; _Bool m_computed;
+                 Scalar *m_T_diag, *m_T_subd, *m_R_diag, *m_R_supd, *m_R_supd2; } TQ;
+Index g_q;
+/* compute_rotation(x, y, r, c, s): contract proved over the full finite domain in rotation.* (writes r, c, s only) */
+static void compute_rotation(Scalar x, Scalar y, Scalar *r, Scalar *c, Scalar *s) { (void)x; (void)y; *r = nondet_Scalar(); *c = nondet_Scalar(); *s = nondet_Scalar(); }
+_Bool g_off_band;     /* ghost: a cell outside the diagonal / first sub-diagonal of dest was written by the sweep */
+static Scalar *DEST(Mat *M, Index r, Index c, _Bool write)
+{ __CPROVER_assert(0 <= r && r < M->rows && 0 <= c && c < M->cols, "Eigen index assertion: dest(row, col) in range");
+  if (write && !(r - c == 0 || r - c == 1)) g_off_band = 1; M->cell = nondet_Scalar(); return &M->cell; }
+'''
+
+
+def tridiagqr_groups(report):
+    mem = X.members(QH, "TridiagQR")
+    if mem != ["m_T_diag", "m_T_subd", "m_R_diag", "m_R_supd", "m_R_supd2"]:
+        raise X.ExtractionBreak("TridiagQR members changed: %r" % mem)
+    groups = []
+    # ---- compute
+    f = X.locate(QH, "compute", cls="TridiagQR")
+    spec = FSpec("tq_compute", "void", [("TQ *", "Q"), ("Index", "rows"), ("Index", "cols"), ("Scalar", "shift")],
+                 pre=[("size >= 2 (the solvers use ncv >= 2; m_R_supd2 has n - 2 entries)", "2 <= rows && rows <= NMAX && 0 <= cols && cols <= NMAX")],
+                 post=[("computed; one rotation per sub-diagonal entry; band arrays sized n, n-1, n-2",
+                        "Q->m_computed && Q->m_n == rows && VEC_SIZE(Q->m_rot_cos) == rows - 1 && VEC_SIZE(Q->m_rot_sin) == rows - 1 && VEC_SIZE(Q->m_T_diag) == rows && "
+                        "VEC_SIZE(Q->m_T_subd) == rows - 1 && VEC_SIZE(Q->m_R_diag) == rows && VEC_SIZE(Q->m_R_supd) == rows - 1 && VEC_SIZE(Q->m_R_supd2) == rows - 2")],
+                 exc_post=[("non-square -> invalid_argument", "rows != cols && verif_exc == EXC_invalid_argument")],
+                 frame=["Q->m_n", "Q->m_shift", "Q->m_rot_cos", "Q->m_rot_sin", "Q->m_computed", "Q->m_T_diag", "Q->m_T_subd", "Q->m_R_diag", "Q->m_R_supd", "Q->m_R_supd2"],
+                 may_throw=[1], real=QH + ":TridiagQR::compute")
+    pre = [("rows", r"m_n = mat\.rows\(\);", "m_n = rows;", {"max": 1}), ("cols", r"mat\.cols\(\)", "cols", {"max": 1}),
+           ("resize", r"\b(m_rot_cos|m_rot_sin|m_T_diag|m_T_subd|m_R_diag|m_R_supd|m_R_supd2)\.resize\(([^;]+)\);", r"\1 = VEC_NEW(\2);", {"min": 7, "max": 7}),
+           ("copy-diag", r"m_T_diag\.noalias\(\) = mat\.diagonal\(\);", "HAVOC_VEC(m_T_diag);", {"max": 1}),
+           ("copy-subd", r"m_T_subd\.noalias\(\) = mat\.diagonal\(-1\);", "HAVOC_VEC(m_T_subd);", {"max": 1}),
+           ("shift-copy", r"m_R_diag\.array\(\) = m_T_diag\.array\(\) - m_shift;", "HAVOC_VEC(m_R_diag);", {"max": 1}),
+           ("supd-copy", r"m_R_supd\.noalias\(\) = m_T_subd;", "__CPROVER_assert(VEC_SIZE(m_R_supd) == VEC_SIZE(m_T_subd), @Q@Eigen: assignment needs equal sizes@Q@); HAVOC_VEC(m_R_supd);", {"max": 1}),
+           ("data", r"\b(m_rot_cos|m_rot_sin)\.data\(\)", r"\1", {"min": 2, "max": 2}),
+           ("this", r"this->compute_rotation\(m_R_diag\.coeff\(i\), m_T_subd\.coeff\(i\), r, \*c, \*s\);", "compute_rotation(m_R_diag[i], m_T_subd[i], &r, c, s);", {"max": 1}),
+           ("coeff", r"\b(m_R_diag|m_R_supd|m_R_supd2|m_T_subd|m_T_diag)\.coeff(?:Ref)?\(([^()]+)\)", r"\1[\2]", {"min": 8})]
+    loops = {0: "__CPROVER_assigns(i, __CPROVER_object_whole(Q->m_T_subd)) __CPROVER_loop_invariant(0 <= i && i <= Q->m_n - 1) __CPROVER_decreases(Q->m_n - 1 - i)",
+             1: "__CPROVER_assigns(i, r, c, s, __CPROVER_object_whole(Q->m_rot_cos), __CPROVER_object_whole(Q->m_rot_sin), __CPROVER_object_whole(Q->m_R_diag), "
+                "__CPROVER_object_whole(Q->m_R_supd), __CPROVER_object_whole(Q->m_R_supd2)) "
+                "__CPROVER_loop_invariant(0 <= i && i <= n1 && __CPROVER_same_object(c, Q->m_rot_cos) && __CPROVER_same_object(s, Q->m_rot_sin) && "
+                "__CPROVER_POINTER_OFFSET(c) == i * sizeof(Scalar) && __CPROVER_POINTER_OFFSET(s) == i * sizeof(Scalar)) __CPROVER_decreases(n1 - i)"}
+    # the c/s pointer walks make the loop-contract version run out of memory (23 GB); bounded stand-in: n <= NB, full unwinding
+    NB = 6
+    t, R = cgen.emit(f, "tq_compute", ret_c="void", self_type="TQ", self_name="Q", members=TQ_MEM, param_types={"mat": "Index", "shift": "Scalar"},
+                     pre_rules=pre, loop_contracts={}, contract=spec.frame_contract(["rows <= %d" % NB]))
+    t = t.replace("TQ *Q, Index mat, Scalar shift", "TQ *Q, Index rows, Index cols, Scalar shift")
+    report["TridiagQR::compute"] = R.fired
+    alloc = ("  TQ Qv; TQ *Q = &Qv; Q->m_n = nondet_Index(); Q->m_rot_cos = VEC_NEW(0); Q->m_rot_sin = VEC_NEW(0); Q->m_T_diag = VEC_NEW(0); Q->m_T_subd = VEC_NEW(0); "
+             "Q->m_R_diag = VEC_NEW(0); Q->m_R_supd = VEC_NEW(0); Q->m_R_supd2 = VEC_NEW(0); Q->m_computed = nondet_bool(); Q->m_shift = nondet_Scalar();\n")
+    groups.append(Group("tridiagqr.compute", TQ_TYPES + t + spec.harness("h", alloc + "  Index rows = nondet_Index(), cols = nondet_Index(); Scalar shift = nondet_Scalar();", "Q, rows, cols, shift", pre_assume=["rows <= %d" % NB]),
+                        "h", enforce="tq_compute", solver="cadical", defines=["SCALAR_DOUBLE"], timeout=600, functions=[QH + ":TridiagQR::compute"], loop_contracts=False,
+                        unwind=NB + 1, bounded="n <= %d (all sizes 2..%d symbolically), loops fully unwound with unwinding assertions" % (NB, NB), expect_classes=["unwind"],
+                        note="band arrays and the c/s pointer walks stay inside their arrays; the loop-contract version exceeds 23 GB"))
+    # ---- matrix_QtHQ(Matrix&)
+    f = X.locate(QH, "matrix_QtHQ", cls="TridiagQR", params_re=r"^\s*Matrix&")
+    spec2 = FSpec("tq_QtHQ", "void", [("TQ *", "Q"), ("Mat *", "dest")],
+                  pre=[("object as left by compute()", "2 <= Q->m_n && Q->m_n <= NMAX && VEC_SIZE(Q->m_rot_cos) == Q->m_n - 1 && VEC_SIZE(Q->m_rot_sin) == Q->m_n - 1 && VEC_SIZE(Q->m_T_diag) == Q->m_n && VEC_SIZE(Q->m_T_subd) == Q->m_n - 1"),
+                       ("destination is some matrix", "0 <= dest->rows && dest->rows <= NMAX && 0 <= dest->cols && dest->cols <= NMAX")],
+                  post=[("dest is n x n", "dest->rows == Q->m_n && dest->cols == Q->m_n"),
+                        ("Q'TQ keeps the tridiagonal shape EXACTLY: after the zero fill only diagonal and first sub-diagonal cells are written, and the super-diagonal is a copy of the sub-diagonal (exact symmetry)",
+                         "!g_off_band && g_mirrored")],
+                  exc_post=[("not computed -> logic_error", "!Q->m_computed && verif_exc == EXC_logic_error")],
+                  frame=["*dest", "g_off_band", "g_mirrored"], may_throw=[3], real=QH + ":TridiagQR::matrix_QtHQ")
+    pre2 = [("resize", r"dest\.resize\(m_n, m_n\);\s*dest\.setZero\(\);", "(*dest) = MAT_NEW(m_n, m_n); g_off_band = 0; g_mirrored = 0;", {"max": 1}),
+            ("diag", r"dest\.diagonal\(\)\.noalias\(\) = m_T_diag;", "__CPROVER_assert(VEC_SIZE(m_T_diag) == dest->rows, @Q@Eigen: diagonal() assignment needs n entries@Q@);", {"max": 1}),
+            ("subd", r"dest\.diagonal\(-1\)\.noalias\(\) = m_T_subd;", "__CPROVER_assert(VEC_SIZE(m_T_subd) == dest->rows - 1, @Q@Eigen: diagonal(-1) assignment needs n-1 entries@Q@);", {"max": 1}),
+            ("mirror", r"dest\.diagonal\(1\)\.noalias\(\) = dest\.diagonal\(-1\);", "g_mirrored = 1;", {"max": 1}),
+            ("write", r"dest\.coeffRef\(([^;=]+?)\)\s*(\*?=)", r"(*DEST(dest, \1, 1)) \2", {"min": 6}),
+            ("read", r"dest\.coeff\(([^;]+?)\)(?=[\s,;)*+-])", r"(*DEST(dest, \1, 0))", {"min": 6}),
+            ("coeff", r"\b(m_rot_cos|m_rot_sin|m_T_subd)\.coeff\(([^()]+)\)", r"\1[\2]", {"min": 5})]
+    loops2 = {0: "__CPROVER_assigns(i, dest->cell, g_off_band) __CPROVER_loop_invariant(0 <= i && i <= n1 && !g_off_band) __CPROVER_decreases(n1 - i)",
+              1: "__CPROVER_assigns(i, dest->cell, g_off_band) __CPROVER_loop_invariant(0 <= i && i <= n1 && !g_off_band) __CPROVER_decreases(n1 - i)"}
+    t2, R = cgen.emit(f, "tq_QtHQ", ret_c="void", self_type="TQ", self_name="Q", members=TQ_MEM, param_types={"dest": "Mat *"},
+                      pre_rules=pre2, loop_contracts=loops2, contract=spec2.frame_contract())
+    report["TridiagQR::matrix_QtHQ"] = R.fired
+    alloc2 = ("  TQ Qv; TQ *Q = &Qv; Q->m_n = nondet_Index(); __CPROVER_assume(0 <= Q->m_n && Q->m_n <= NMAX); Q->m_rot_cos = VEC_NEW(ND0(Q->m_n - 1)); Q->m_rot_sin = VEC_NEW(ND0(Q->m_n - 1)); "
+              "Q->m_T_diag = VEC_NEW(Q->m_n); Q->m_T_subd = VEC_NEW(ND0(Q->m_n - 1)); Q->m_R_diag = VEC_NEW(0); Q->m_R_supd = VEC_NEW(0); Q->m_R_supd2 = VEC_NEW(0); Q->m_computed = nondet_bool();\n"
+              "  Mat D = MAT_NEW(ND0(nondet_Index()), ND0(nondet_Index())); Mat *dest = &D;\n")
+    nd0 = "static Index ND0(Index v) { if (v < 0) return 0; if (v > NMAX) return NMAX; return v; }\n_Bool g_mirrored;\n"
+    groups.append(Group("tridiagqr.matrix_QtHQ", TQ_TYPES + nd0 + t2 + spec2.harness("h", alloc2, "Q, dest"), "h", enforce="tq_QtHQ", solver="cadical", defines=["SCALAR_DOUBLE"], timeout=600,
+                        functions=[QH + ":TridiagQR::matrix_QtHQ"], expect_classes=["loop_invariant_step", "Eigen index assertion"],
+                        note="unbounded in n: shape is a frame fact (which cells are written), independent of floating-point values"))
+    return groups
+
+
+HQ_TYPES = '#include "skel.h"\n' + eigabs.SKEL_MACROS + r'''
+typedef struct { Index m_n; Scalar m_shift; Scalar *m_rot_cos, *m_rot_sin; _Bool m_computed; Scalar *m_mat_R; /* n x n, column-major */ } HQ;
+Index g_r, g_c;     /* Skolem cell */
+static void compute_rotation(Scalar x, Scalar y, Scalar *r, Scalar *c, Scalar *s) { (void)x; (void)y; *r = nondet_Scalar(); *c = nondet_Scalar(); *s = nondet_Scalar(); }
+'''
+
+
+def hessqr_groups(tier, report):
+    """UpperHessenbergQR::compute + matrix_QtHQ: raw pointer walks over the flattened n x n storage - BOUNDED at concrete n."""
+    groups = []
+    f = X.locate(QH, "compute", cls="UpperHessenbergQR")
+    pre = [("rows", r"m_n = mat\.rows\(\);", "m_n = NN;", {"max": 1}), ("cols", r"mat\.cols\(\)", "cols", {"max": 1}),
+           ("resize-R", r"m_mat_R\.resize\(m_n, m_n\);", "m_mat_R = VEC_NEW(m_n * m_n);", {"max": 1}),
+           ("resize-cs", r"\b(m_rot_cos|m_rot_sin)\.resize\(([^;]+)\);", r"\1 = VEC_NEW(\2);", {"min": 2, "max": 2}),
+           ("copy", r"m_mat_R\.noalias\(\) = mat;", "for (Index k_ = 0; k_ < m_n * m_n; k_++) m_mat_R[k_] = mat[k_];", {"max": 1}),
+           ("shift", r"m_mat_R\.diagonal\(\)\.array\(\) -= m_shift;", "for (Index d_ = 0; d_ < m_n; d_++) m_mat_R[d_ + d_ * m_n] -= m_shift;", {"max": 1}),
+           ("Rii", r"&m_mat_R\.coeffRef\(i, i\)", "&m_mat_R[i + i * m_n]", {"max": 1}),
+           ("fill", r"std::fill\(([^,]+), ([^,]+), Scalar\(0\)\);", r"for (Scalar *p_ = (\1); p_ < (\2); p_++) *p_ = (Scalar)0;", {"max": 1}),
+           ("rot", r"(?<![\w>])compute_rotation\(xi, xj, r, c, s\);", "compute_rotation(xi, xj, &r, &c, &s);", {"max": 1}),
+           ("cs", r"\b(m_rot_cos|m_rot_sin)\.coeffRef\(i\)", r"\1[i]", {"min": 2, "max": 2})]
+    t1, R = cgen.emit(f, "hq_compute", ret_c="void", self_type="HQ", self_name="Q", members=["m_n", "m_shift", "m_rot_cos", "m_rot_sin", "m_computed", "m_mat_R"],
+                      param_types={"mat": "const Scalar *", "shift": "Scalar"}, pre_rules=pre)
+    t1 = t1.replace("HQ *Q, const Scalar * mat, Scalar shift", "HQ *Q, const Scalar *mat, Index cols, Scalar shift")
+    report["UpperHessenbergQR::compute"] = R.fired
+    g = X.locate(QH, "matrix_QtHQ", cls="UpperHessenbergQR")
+    pre2 = [("resize", r"dest\.resize\(m_n, m_n\);", "Scalar *dest = VEC_NEW(m_n * m_n);", {"max": 1}),
+            ("copy", r"dest\.noalias\(\) = m_mat_R;", "for (Index k_ = 0; k_ < m_n * m_n; k_++) dest[k_] = m_mat_R[k_];", {"max": 1}),
+            ("cs", r"\b(m_rot_cos|m_rot_sin)\.coeff\(i\)", r"\1[i]", {"min": 2, "max": 2}),
+            ("Yi", r"&dest\.coeffRef\(0, i\)", "&dest[0 + i * m_n]", {"max": 1}),
+            ("shift", r"dest\.diagonal\(\)\.array\(\) \+= m_shift;", "for (Index d_ = 0; d_ < m_n; d_++) dest[d_ + d_ * m_n] += m_shift; return dest;", {"max": 1})]
+    t2, R = cgen.emit(g, "hq_QtHQ", ret_c="Scalar *", self_type="HQ", self_name="Q", members=["m_n", "m_shift", "m_rot_cos", "m_rot_sin", "m_computed", "m_mat_R"],
+                      param_types={"dest": "int"}, pre_rules=pre2)
+    t2 = t2.replace("HQ *Q, int dest", "HQ *Q")
+    report["UpperHessenbergQR::matrix_QtHQ"] = R.fired
+    harness = r'''
+#line 1 "harness/kernels.hessqr"
+void h(void) {
+  HQ Qv; HQ *Q = &Qv; Q->m_n = nondet_Index(); Q->m_rot_cos = VEC_NEW(0); Q->m_rot_sin = VEC_NEW(0); Q->m_mat_R = VEC_NEW(0); Q->m_computed = 0;
+  const Scalar *mat = VEC_NEW(NN * NN); Scalar shift = nondet_Scalar();
+  __CPROVER_assume(0 <= g_r && g_r < NN && 0 <= g_c && g_c < NN);
+  verif_exc = 0;
+  hq_compute(Q, mat, NN, shift);
+  __CPROVER_assert(verif_exc == 0 && Q->m_computed && Q->m_n == NN, "hessqr.compute: computed");
+  __CPROVER_assert(!(g_r > g_c) || Q->m_mat_R[g_r + g_c * NN] == (Scalar)0, "hessqr.compute: R is EXACTLY upper triangular (every cell below the diagonal is a literal zero)");
+  Scalar *D = hq_QtHQ(Q);
+  __CPROVER_assert(verif_exc == 0, "hessqr.matrix_QtHQ: no exception after compute()");
+  __CPROVER_assert(!(g_r > g_c + 1) || D[g_r + g_c * NN] == (Scalar)0, "hessqr.matrix_QtHQ: Q'HQ = RQ + sI is EXACTLY upper Hessenberg");
+  CANARY();
+}
+'''
+    sizes = [2, 3, 4, 6] if tier == "quick" else [2, 3, 4, 5, 6, 7, 8, 10]
+    for n in sizes:
+        groups.append(Group("hessqr.compute+QtHQ.n%d" % n, HQ_TYPES + t1 + t2 + harness, "h", loop_contracts=False, solver="cadical", defines=["SCALAR_FLOAT" if tier == "quick" else "SCALAR_DOUBLE", "NN=%d" % n],
+                            unwind=n * n + 2, timeout=900, mem_gb=12, bounded="n = %d (concrete), full unwinding with unwinding assertions" % n,
+                            functions=[QH + ":UpperHessenbergQR::compute", QH + ":UpperHessenbergQR::matrix_QtHQ"], expect_classes=["hessqr.", "unwind"],
+                            note="raw pointer walks over flattened storage; shape facts are frame facts (literal zeros), memory safety by pointer/bounds checks"))
+    return groups
 
 
 def qr_groups(tier, report, pre, rot):
-    return []
+    return tridiagqr_groups(report) + hessqr_groups(tier, report)
 
 
 def bkldlt_groups(tier, report):
-    return []
+    """BKLDLT pivoting kernels on the packed lower-triangular storage: BOUNDED (concrete n).  Checks the contract that C10's
+    bk.compute assumes for permutate_mat on the REAL bodies (compute_pointer, find_lambda, find_sigma, pivoting_1x1/2x2,
+    interchange_rows) together with memory safety of every pointer walk."""
+    BH = "LinAlg/BKLDLT.h"
+    raw, st = X.load(BH)
+    for pat in (r"Scalar\* col_pointer\(Index k\) \{ return m_colptr\[k\]; \}", r"Scalar& coeff\(Index i, Index j\) \{ return m_colptr\[j\]\[i - j\]; \}",
+                r"Scalar& diag_coeff\(Index i\) \{ return m_colptr\[i\]\[0\]; \}"):
+        if not re.search(pat, st):
+            raise X.ExtractionBreak("BKLDLT accessor changed: %s" % pat)
+    types = '#include "skel.h"\n' + r'''
+typedef struct { Index m_n; Scalar *m_data; Scalar **m_colptr; Index colptr_n; Index *m_perm; } BKK;
+#define col_pointer(k) (B->m_colptr[k])
+#define coeff(i, j) (B->m_colptr[j][(i) - (j)])
+#define diag_coeff(i) (B->m_colptr[i][0])
+#define SWAP_S(a, b) do { Scalar t_ = (a); (a) = (b); (b) = t_; } while (0)
+'''
+    mem = ["m_n", "m_data", "m_colptr", "m_perm"]
+    common_pre = [("is_same", r"std::is_same<Scalar, RealScalar>::value", "1", {"min": 0})]
+
+    def std_calls(b, R):
+        b = R.call_rewrite("conj", r"ScalarOp<Scalar>::conj(?=\()", lambda m, a: "(%s)" % a[0] if len(a) == 1 else None, b)
+        b = R.call_rewrite("swap_ranges", r"std::swap_ranges(?=\()",
+                           lambda m, a: "{ Scalar *a_ = (%s), *e_ = (%s), *b_ = (%s); for (; a_ < e_; a_++, b_++) SWAP_S(*a_, *b_); }" % tuple(a) if len(a) == 3 else None, b)
+        b = R.call_rewrite("swap", r"std::swap(?=\()", lambda m, a: "SWAP_S(%s, %s)" % tuple(a) if len(a) == 2 else None, b)
+        return b
+    parts = []
+    for name, kw in (("compute_pointer", dict(pre_rules=[("clear", r"m_colptr\.clear\(\);\s*m_colptr\.reserve\(m_n\);", "B->m_colptr = malloc(m_n * sizeof(Scalar *)); __CPROVER_assume(B->m_colptr != NULL); B->colptr_n = 0;", {"max": 1}),
+                                                         ("data", r"m_data\.data\(\)", "m_data", {"max": 1}),
+                                                         ("push", r"m_colptr\.push_back\(head\);", "B->m_colptr[B->colptr_n++] = head;", {"max": 1})])),
+                     ("interchange_rows", {}), ("pivoting_1x1", {}),
+                     ("pivoting_2x2", dict(extra_rules=[("p1", r"(?<![\w>])pivoting_1x1\(", "pivoting_1x1(B, ", {"min": 2, "max": 2})])),
+                     ("find_lambda", dict(param_types={"r": "REF"}, ret_c="Scalar")),
+                     ("find_sigma", dict(param_types={"p": "REF"}, ret_c="Scalar", extra_rules=[("fl", r"find_lambda\(r, \(\*p\)\)", "find_lambda(B, r, p)", {"max": 1})])),
+                     ("permutate_mat", dict(ret_c="_Bool", param_types={"alpha": "Scalar"},
+                                            extra_rules=[("fl", r"find_lambda\(k, r\)", "find_lambda(B, k, &r)", {"max": 1}), ("fs", r"find_sigma\(k, r, p\)", "find_sigma(B, k, r, &p)", {"max": 1}),
+                                                         ("p1", r"(?<![\w>])pivoting_1x1\(k, r\);", "pivoting_1x1(B, k, r);", {"max": 1}), ("p2", r"(?<![\w>])pivoting_2x2\(k, r, p\);", "pivoting_2x2(B, k, r, p);", {"max": 1}),
+                                                         ("ir", r"(?<![\w>])interchange_rows\(", "interchange_rows(B, ", {"min": 3, "max": 3})]))):
+        f = X.locate(BH, name, cls="BKLDLT")
+        pr = list(common_pre) + list(kw.pop("pre_rules", []))
+        t, R = cgen.emit(f, name, self_type="BKK", self_name="B", members=mem, pre_rules=pr, post_fn=std_calls, **kw)
+        report["BKLDLT::" + name] = R.fired
+        parts.append(t)
+    harness = r'''
+#line 1 "harness/kernels.bkldlt"
+void h(void) {
+  BKK Bv; BKK *B = &Bv; B->m_n = NN; B->m_data = VEC_NEW(NN * (NN + 1) / 2); B->m_perm = IVEC_NEW(NN);
+  compute_pointer(B);
+  __CPROVER_assert(B->colptr_n == NN, "bkldlt.compute_pointer: one pointer per column");
+  for (Index j = 0; j < NN; j++) {
+    __CPROVER_assert(__CPROVER_same_object(B->m_colptr[j], B->m_data) && __CPROVER_POINTER_OFFSET(B->m_colptr[j]) == (j * NN - j * (j - 1) / 2) * sizeof(Scalar),
+                     "bkldlt.compute_pointer: column j starts at offset j*n - j(j-1)/2 (disjoint segments of length n - j inside m_data)");
+    B->m_perm[j] = j; }
+  Index k = nondet_Index(); __CPROVER_assume(0 <= k && k < NN - 1);
+  _Bool one = permutate_mat(B, k, (Scalar)0.6403882032022076);
+  if (one) __CPROVER_assert(k <= B->m_perm[k] && B->m_perm[k] < NN, "bkldlt.permutate_mat: 1x1 pivot records a row in [k, n)");
+  else __CPROVER_assert(B->m_perm[k] < 0 && B->m_perm[k + 1] < 0 && -B->m_perm[k] - 1 >= k && -B->m_perm[k] - 1 < NN && -B->m_perm[k + 1] - 1 >= k + 1 && -B->m_perm[k + 1] - 1 < NN,
+                        "bkldlt.permutate_mat: 2x2 pivot records two negative entries with targets in range (the contract assumed by bk.compute)");
+  Index q = nondet_Index(); __CPROVER_assume(0 <= q && q < NN && q != k && !(q == k + 1 && !one));
+  __CPROVER_assert(B->m_perm[q] == q, "bkldlt.permutate_mat: no other entry of the pivot record is written");
+  CANARY();
+}
+'''
+    groups = []
+    for n in ([2, 3, 4] if tier == "quick" else [2, 3, 4, 5, 6]):
+        groups.append(Group("bkldlt.kernels.n%d" % n, types + "".join(parts) + harness, "h", loop_contracts=False, solver="cadical", defines=["SCALAR_FLOAT", "NN=%d" % n], unwind=n * (n + 1) // 2 + 3,
+                            timeout=900, mem_gb=12, bounded="n = %d (concrete), full unwinding with unwinding assertions" % n,
+                            functions=[BH + ":" + x for x in ("compute_pointer", "find_lambda", "find_sigma", "pivoting_1x1", "pivoting_2x2", "interchange_rows", "permutate_mat")],
+                            expect_classes=["bkldlt.", "unwind"], note="real scalar instantiation; packed-storage pointer walks, swap_ranges, row interchanges"))
+    return groups
 
 
 def eigen_groups(tier, report):
-    return []
+    """TridiagEigen::tridiagonal_qr_step: the frame contract that tridiag.compute relies on, proved UNBOUNDED (1-D arrays)."""
+    TH = "LinAlg/TridiagEigen.h"
+    f = X.locate(TH, "tridiagonal_qr_step", cls="TridiagEigen")
+    types = '#include "skel.h"\n' + eigabs.SKEL_MACROS + r'''
+Index g_q;
+typedef struct { Scalar m_c, m_s; } Jacobi;
+#define NMAXS 4096
+'''
+    spec = FSpec("tridiagonal_qr_step", "void", [("Scalar *", "diag"), ("Scalar *", "subdiag"), ("Index", "start"), ("Index", "end"), ("Scalar *", "matrixQ"), ("Index", "n")],
+                 pre=[("0 <= start < end <= n-1, diag has n and subdiag n-1 entries", "0 <= start && start < end && end <= n - 1 && n <= NMAXS && VEC_SIZE(diag) == n && VEC_SIZE(subdiag) == n - 1"),
+                      ("Skolem", "0 <= g_q && g_q <= NMAXS")],
+                 post=[("frame: sub-diagonal entries outside [start, end) are untouched", "!(0 <= g_q && g_q < n - 1 && (g_q < start || g_q >= end)) || NANSAME(subdiag[g_q], old_s)"),
+                       ("frame: diagonal entries outside [start, end] are untouched", "!(0 <= g_q && g_q < n && (g_q < start || g_q > end)) || NANSAME(diag[g_q], old_d)")],
+                 frame=[], frame_objs=["diag", "subdiag"],
+                 olds=[("Scalar", "old_s", "(0 <= g_q && g_q < n - 1) ? subdiag[g_q] : (Scalar)0"), ("Scalar", "old_d", "(0 <= g_q && g_q < n) ? diag[g_q] : (Scalar)0")],
+                 real=TH + ":tridiagonal_qr_step")
+    pre = [("abs2", r"Eigen::numext::abs2\(e\)", "(e * e)", {"max": 1}), ("hypot", r"Eigen::numext::hypot\(td, e\)", "NONNEG_SCALAR()", {"max": 1}),
+           ("map", r"Eigen::Map<Matrix> q\(matrixQ, n, n\);", "", {"max": 1}),
+           ("rot", r"Eigen::JacobiRotation<RealScalar> rot;\s*rot\.makeGivens\(x, z\);", "Jacobi rot; rot.m_c = nondet_Scalar(); rot.m_s = nondet_Scalar();", {"max": 1}),
+           ("rs", r"rot\.s\(\)", "rot.m_s", {"max": 1}), ("rc", r"rot\.c\(\)", "rot.m_c", {"max": 1}),
+           ("apply", r"q\.applyOnTheRight\(k, k \+ 1, rot\);", "__CPROVER_assert(0 <= k && k + 1 < n, @Q@Eigen: applyOnTheRight(p, q) column indices in range@Q@);", {"max": 1})]
+    inv = ("__CPROVER_assigns(k, x, z, __CPROVER_object_whole(diag), __CPROVER_object_whole(subdiag)) "
+           "__CPROVER_loop_invariant(start <= k && k <= end) "
+           "__CPROVER_loop_invariant(!(0 <= g_q && g_q < n - 1 && (g_q < start || g_q >= end)) || NANSAME(subdiag[g_q], old_s_l)) "
+           "__CPROVER_loop_invariant(!(0 <= g_q && g_q < n && (g_q < start || g_q > end)) || NANSAME(diag[g_q], old_d_l)) __CPROVER_decreases(end - k)")
+    t, R = cgen.emit(f, "tridiagonal_qr_step", ret_c="void", param_types={"diag": "Scalar *", "subdiag": "Scalar *", "matrixQ": "Scalar *"}, pre_rules=pre,
+                     loop_contracts={0: inv}, contract=spec.frame_contract(),
+                     pre_body=" const Scalar old_s_l = (0 <= g_q && g_q < n - 1) ? subdiag[g_q] : (Scalar)0; const Scalar old_d_l = (0 <= g_q && g_q < n) ? diag[g_q] : (Scalar)0;")
+    report["TridiagEigen::tridiagonal_qr_step"] = R.fired
+    nansame = "#define NANSAME(a, b) (((b) != (b)) ? ((a) != (a)) : ((a) == (b)))\n"
+    h = spec.harness("h", "  Index n = nondet_Index(); __CPROVER_assume(0 <= n && n <= NMAXS); Scalar *diag = VEC_NEW(n); Scalar *subdiag = VEC_NEW(n > 0 ? n - 1 : 0); Index start = nondet_Index(), end = nondet_Index(); Scalar *matrixQ = nondet_bool() ? VEC_NEW(1) : NULL;",
+                     "diag, subdiag, start, end, matrixQ, n")
+    return [Group("tridiag.qr_step.frame", types + nansame + t + h, "h", enforce="tridiagonal_qr_step", solver="cadical", defines=["SCALAR_FLOAT"], timeout=600,
+                  functions=[TH + ":tridiagonal_qr_step"], expect_classes=["loop_invariant_step", "assigns"],
+                  note="unbounded in n: proves the frame contract that tridiag.compute assumes for this callee")]
